@@ -45,6 +45,9 @@ structure Facts where
   tid : Nat
   masked : Bool
   dates : List DateFact
+  /-- `Local::now().offset()` of the exec process, seconds east of UTC (the harness sets a
+  non-UTC zone; 0 means the zone was not applied) -/
+  tzOffset : Int
   raw : String
 
 def decDateFact (s : String) : Option DateFact :=
@@ -60,13 +63,14 @@ def decDateFact (s : String) : Option DateFact :=
 
 def decFacts (fs : List String) : Option Facts :=
   match fs with
-  | [d, p, t, m, ds] => do
+  | [d, p, t, m, ds, tz] => do
     let debug ← decBool d
     let pid ← decNat p
     let tid ← decNat t
     let masked ← decBool m
     let dates ← mapM? decDateFact (decList ',' ds)
-    pure { debug, pid, tid, masked, dates, raw := " ".intercalate fs }
+    let tzOffset ← decInt tz
+    pure { debug, pid, tid, masked, dates, tzOffset, raw := " ".intercalate fs }
   | _ => none
 
 structure Case where
@@ -261,7 +265,9 @@ def handle : Handler := fun cas obs =>
               | _ => tags
             -- the executable reading of the statement, on the implementation's observation
             let spec :=
-              if !verdictsAgree f then
+              if f.tzOffset = 0 then
+                "FAIL:the exec process runs with local zone = UTC (harness zone not applied);sig=C11/harness-local-zone-is-utc"
+              else if !verdictsAgree f then
                 "FAIL:chrono's render verdict differs between the trial rendering and a rendering;sig=C11/render-verdict-not-a-function-of-the-format"
               else if implOutcome.startsWith "PANIC" then
                 match encoded with
